@@ -11,7 +11,7 @@ from mc.ref import lang
 PID = 'C16'
 LEVEL = 'fault_enumeration'
 RULE = ('bodies: every concatenation of <=n pieces from {True,true,TRUE,'
-        'False,",\',space,newline,1,T,rue,null,0xff,4kB of True,Tr"ue,"True","Tru\\u0065",["True"],{"True":true},tab,CRLF} x 10 status '
+        'False,",\',space,newline,1,T,rue,null,0xff,4kB of True,Tr"ue,"True","Tru\\u0065",["True"],{"True":true},tab,CRLF,300 double quotes} x 10 status '
         'codes x http/https x both remote_content_type settings x 3 reply '
         'content-type headers; faults: Timeout, ConnectTimeout, ReadTimeout, '
         'ConnectionError, SSLError, ChunkedEncodingError raised by the '
@@ -42,7 +42,9 @@ PIECES = [b'True', b'true', b'TRUE', b'False', b'"', b"'", b' ', b'\n', b'1',
           # replies that are JSON documents: the string "True", escapes
           # that spell it, containers around it
           b'"True"', b'"Tru\\u0065"', b'["True"]', b'{"True": true}', b'\t',
-          b'\r\n']
+          b'\r\n',
+          # longer than any plausible "only look at the first N characters"
+          b'"' * 300]
 STATUS = [200, 201, 204, 301, 400, 401, 403, 404, 500, 503]
 HEADERS = [{}, {'Content-Type': 'text/plain; charset=utf-8'},
            {'Content-Type': 'application/json'}]
